@@ -36,16 +36,32 @@ def _mk_case(rng, fdir, idx, tier):
             if hit:
                 sel.append(i)
         with open(path, "w") as f:
-            f.write("".join(l + "\n" for l in lines))
+            body = "".join(l + "\n" for l in lines)
+            if lines and rng.random() < 0.3:
+                body = body[:-1]          # last line without its newline
+                _nonl.add(os.path.basename(path))
+            f.write(body)
         if grep:
             payloads.append(("grep: %s regex:default HIT" % path).encode().hex())
         else:
             payloads.append(("cat: %s regex:noop " % path).encode().hex())
         expect.append({"id": os.path.basename(path), "selected": sel, "lines": lines})
+    if rng.random() < 0.25:
+        # a path the glob returns but the permission check refuses: the session must still end
+        bad = os.path.join(fdir, "c%05d_refused" % idx)
+        kind = rng.choice(["dir", "dangling"])
+        if kind == "dir":
+            os.makedirs(bad, exist_ok=True)
+        elif not os.path.lexists(bad):
+            os.symlink("nowhere-%d" % idx, bad)
+        payloads.insert(rng.randrange(len(payloads) + 1), ("cat: %s regex:noop " % bad).encode().hex())
+        refused = True
+    else:
+        refused = False
     pace = rng.choice(["fast", "slow", "slow", "stall", "stall", "slowstall"])
     c = {"payloads": payloads, "cat_limit": rng.choice([1, 2, 3]), "private_limiter": True,
          "gap_ms": rng.choice([0, 0, 0, 2, 20, 50]), "read_delay_us": 0, "stall_after": 0, "stall_ms": 0,
-         "_expect": expect, "_pace": pace, "_grep": grep}
+         "_expect": expect, "_pace": pace, "_grep": grep, "_refused": refused}
     total = sum(len(e["selected"]) for e in expect)
     if pace in ("slow", "slowstall"):
         c["read_delay_us"] = rng.choice([100, 500, 2000 if total < 400 else 300])
@@ -72,6 +88,7 @@ def generate(rng, tier):
 
 
 _state = {}
+_nonl = set()
 REC = re.compile(rb"^REMOTE\|([^|]*)\|\s*(\d+)\|(\d+)\|([^|]*)\|(.*)$", re.S)
 
 
@@ -160,7 +177,8 @@ def _analyse(c, o):
         k = by_id[sid]
         e = exp[k]
         i = count - 1
-        if i < 0 or i >= len(e["lines"]) or content != (e["lines"][i] + "\n").encode():
+        want_line = (e["lines"][i] if 0 <= i < len(e["lines"]) else "") + ("" if (sid in _nonl and i == len(e["lines"]) - 1) else "\n")
+        if i < 0 or i >= len(e["lines"]) or content != want_line.encode():
             problems.append("record %s#%d does not carry line %d of that file" % (sid, count, i))
             continue
         if i not in e["selected"]:
@@ -212,9 +230,20 @@ def judge(cases, obs, tier):
 def classify(case, ob, detail):
     if case.get("blackbox"):
         return None
-    if ob.get("late_command"):     # hook trace: a command was counted after shutdown() had been entered
-        return "command_received_after_counter_returned_to_zero"
-    return None
+    if not ob.get("late_command"):  # hook trace: no command was counted after shutdown() had been entered
+        return None
+    # known only if the failure is exactly what the late commands explain: every command counted before the
+    # counter first returned to 0 is complete and in order, and nothing delivered is wrong
+    per, syn, problems = _analyse(case, ob)
+    if any("does not carry" in p or "unknown source" in p or "unselected" in p or "unparsable" in p for p in problems):
+        return None
+    k0 = ob.get("late_from", 0)
+    # the payload list may contain a refused path (no expectation entry): map commands to expectations by order of file commands
+    want = [list(range(len(e["selected"]))) for e in case["_expect"]]
+    early = want[:max(0, k0 - (1 if case.get("_refused") else 0))]
+    if per[:len(early)] != early:
+        return None
+    return "command_received_after_counter_returned_to_zero"
 
 
 def nontrivial(c):
